@@ -66,6 +66,8 @@ def check(run):
         _C05.track(R)
     from . import C01
     with R.as_rule('C04.table'):
+        from . import C06 as _C06
+        _C06.separate_resets(R, 'C04.table')    # ... compressed ones included: a send does not wipe the inflate window
         C01.alias(R)             # messages completed before the violation are delivered as received (no aliasing of the
                                  # reused receive buffer by frames still waiting for their FIN)
         C01.conserve(R)
